@@ -331,13 +331,19 @@ def build_redo(hooks=True):
 def build_harness():
     with Lock("cargo"):
         hdir = os.path.join(VERIF, "harness")
-        lock_src = os.path.join(REPO, "Cargo.lock")
-        # keep the harness lockfile in step with /repo's (plus our own package)
+        if REPO != "/repo":
+            # examine another tree (VERIF_REPO): same harness sources, dependency path rewritten
+            h2 = os.path.join(CACHE, "harness-src")
+            shutil.rmtree(h2, ignore_errors=True)
+            shutil.copytree(hdir, h2, ignore=shutil.ignore_patterns("target"))
+            ct = open(os.path.join(h2, "Cargo.toml")).read().replace('path = "/repo"', 'path = "%s"' % REPO)
+            open(os.path.join(h2, "Cargo.toml"), "w").write(ct)
+            hdir = h2
         cmd = ["cargo", "build", "--offline", "--manifest-path", os.path.join(hdir, "Cargo.toml"),
                "--target-dir", os.path.join(TARGET, "harness")]
         rc, out, err = run(cmd, timeout=1800)
         if rc != 0:
-            raise Broken("cargo build of the harness against /repo failed", err.decode(errors="replace")[-3000:])
+            raise Broken("cargo build of the harness against %s failed" % REPO, err.decode(errors="replace")[-3000:])
         return os.path.join(TARGET, "harness", "debug")
 
 
